@@ -224,7 +224,8 @@ def mod(number, divisor):
     if divisor == 0:
         return DIV0
 
-    return number % divisor
+    # number % divisor is exact on the binary values: 1 % 0.1 == 0.0999..., but INT(1 / 0.1) == 10
+    return number - divisor * math.floor(number / divisor)
 
 
 @excel_helper(cse_params=None, err_str_params=-1, number_params=0)
